@@ -1,0 +1,114 @@
+//go:build verif
+
+package cmd
+
+import (
+	"context"
+	"fmt"
+	"log/slog"
+	"os/signal"
+
+	"github.com/AdguardTeam/AdGuardDNS/internal/agd"
+	"github.com/AdguardTeam/AdGuardDNS/internal/dnsmsg"
+	"github.com/AdguardTeam/AdGuardDNS/internal/errcoll"
+	"github.com/AdguardTeam/AdGuardDNS/internal/filter/filterstorage"
+	"github.com/AdguardTeam/AdGuardDNS/internal/filter/hashprefix"
+	"github.com/prometheus/client_golang/prometheus"
+	"gopkg.in/yaml.v2"
+)
+
+// VerifC02Wiring is what the builder makes of the process environment and the
+// configuration file for the filtering path: the entities that are handed to
+// [dnssvc.NewHandlers] by [builder.initDNS].
+type VerifC02Wiring struct {
+	Storage     *filterstorage.Default
+	Groups      map[agd.FilteringGroupID]*agd.FilteringGroup
+	Messages    *dnsmsg.Constructor
+	Cloner      *dnsmsg.Cloner
+	SDE         *dnsmsg.StructuredDNSErrorsConfig
+	HashMatcher *hashprefix.Matcher
+	EDEEnabled  bool
+}
+
+// VerifC02Build reads the process environment the way the program does, parses
+// and validates the filtering-related sections of the configuration file in
+// confData and runs the builder methods that create the hash-prefix filters,
+// the filter storage, the filtering groups and the message constructor, in the
+// order of [Main].  ns is the metrics namespace; a private registry is used.
+func VerifC02Build(
+	ctx context.Context,
+	confData []byte,
+	l *slog.Logger,
+	errColl errcoll.Interface,
+	ns string,
+) (w *VerifC02Wiring, err error) {
+	envs, err := parseEnvironment()
+	if err != nil {
+		return nil, fmt.Errorf("environment: %w", err)
+	}
+
+	c := &configuration{}
+	err = yaml.Unmarshal(confData, c)
+	if err != nil {
+		return nil, fmt.Errorf("configuration: %w", err)
+	}
+
+	for _, v := range []struct {
+		v    validator
+		name string
+	}{
+		{name: "filters", v: c.Filters},
+		{name: "safe_browsing", v: c.SafeBrowsing},
+		{name: "adult_blocking", v: c.AdultBlocking},
+		{name: "filtering_groups", v: c.FilteringGroups},
+	} {
+		err = v.v.validate()
+		if err != nil {
+			return nil, fmt.Errorf("%s: %w", v.name, err)
+		}
+	}
+
+	b := newBuilder(&builderConfig{
+		envs:       envs,
+		conf:       c,
+		baseLogger: l,
+		errColl:    errColl,
+	})
+
+	// The signal handler of the builder must not take over the signals of the
+	// harness process.
+	signal.Reset()
+
+	b.promRegisterer = prometheus.NewRegistry()
+	b.mtrcNamespace = ns
+
+	err = b.initHashPrefixFilters(ctx)
+	if err != nil {
+		return nil, err
+	}
+
+	err = b.initFilterStorage(ctx)
+	if err != nil {
+		return nil, err
+	}
+
+	err = b.initFilteringGroups(ctx)
+	if err != nil {
+		return nil, err
+	}
+
+	err = b.initMsgConstructor(ctx)
+	if err != nil {
+		return nil, err
+	}
+
+	return &VerifC02Wiring{
+		Storage:     b.filterStorage,
+		Groups:      b.filteringGroups,
+		Messages:    b.messages,
+		Cloner:      b.cloner,
+		SDE:         b.sdeConf,
+		HashMatcher: b.hashMatcher,
+		EDEEnabled:  c.Filters.EDEEnabled,
+	}, nil
+}
